@@ -1,6 +1,8 @@
 // ---- prelude/path.rs: what unit PATH (checker/path.rs) needs besides prelude/model.rs ----
-// Needs in the including unit:  use vstd::prelude::*; use std::hash::Hash;   and prelude/model.rs before it.
-// TRUSTED items (external_body): next_steps, next_states, vec_contains, axiom_fp_ref.  Everything else is a
+// Needs in the including unit:  #![feature(nonzero_internals)]  use vstd::prelude::*; use std::hash::Hash;
+//   use std::num::{NonZero, ZeroablePrimitive}; use vstd::std_specs::cmp::PartialEqSpec;   and prelude/model.rs before it.
+// TRUSTED items: next_steps, next_states, vec_contains (external_body), axiom_fp_ref (external_body proof),
+// `NonZero<T> == NonZero<T>` (assume_specification).  Everything else is a
 // plain definition.
 
 // ---- `Model::next_steps` / `Model::next_states` (provided methods of the real trait, /repo/src/lib.rs) ----
@@ -76,3 +78,9 @@ fn vec_contains<T: PartialEq>(v: &Vec<T>, x: &T) -> (r: bool)
 proof fn axiom_fp_ref<S>(s: &S)
     ensures fp_of::<&S>(s) == fp_of::<S>(*s)
 {}
+
+// TRUSTED: `Fingerprint == Fingerprint`.  `Fingerprint = NonZeroU64 = NonZero<u64>`; std: `impl<T> PartialEq for
+// NonZero<T> where T: ZeroablePrimitive + PartialEq` compares the wrapped integers (`self.get() == other.get()`),
+// i.e. `==` is equality of the values.  (Verus demands the generic signature of the std impl.)
+pub assume_specification<T: ZeroablePrimitive + PartialEq>[<NonZero<T> as PartialEq>::eq](a: &NonZero<T>, b: &NonZero<T>) -> (r: bool)
+    ensures r == (*a == *b);
